@@ -269,7 +269,20 @@ def read_idioms():
         if not ok:
             raise ExtractionError("peer: unrecognised try/except shape")
         peer_rb = True
-    return {"svcRollbackAll": catch_all, "facIndexReset": inside, "compositeRollback": comp_rb[0],
+    # (6) does Topology._disconnect_interfaces skip an interface that is no longer in the graph?
+    di = find_func(find_class(tree2, "Topology"), "_disconnect_interfaces")
+    inner = [n for n in ast.walk(di) if isinstance(n, ast.For)]
+    if len(inner) != 2:
+        raise ExtractionError("_disconnect_interfaces: expected two nested loops")
+    body = [n for n in ast.walk(di) if isinstance(n, ast.For) and not any(isinstance(m, ast.For) for st in n.body for m in ast.walk(st))][0].body
+    first = body[0]
+    skips = (isinstance(first, ast.If) and isinstance(first.test, ast.UnaryOp) and isinstance(first.test.op, ast.Not)
+             and isinstance(first.test.operand, ast.Call) and isinstance(first.test.operand.func, ast.Attribute)
+             and first.test.operand.func.attr == "node_exists" and len(first.body) == 1 and isinstance(first.body[0], ast.Continue))
+    dcalls = [n.func.attr for n in ast.walk(di) if isinstance(n, ast.Call) and isinstance(n.func, ast.Attribute)]
+    if "get_peers" not in dcalls or "disconnect_interface" not in dcalls or (not skips and "node_exists" in dcalls):
+        raise ExtractionError("_disconnect_interfaces: unrecognised shape %s" % dcalls)
+    return {"svcRollbackAll": catch_all, "facIndexReset": inside, "compositeRollback": comp_rb[0], "detachSkipsGone": skips,
             "linkPrecheck": link_pre, "ifaceParentPrecheck": if_pre, "connectNamePrecheck": conn_pre, "peerRollback": peer_rb,
             "spans": {"NetworkService.__init__": span_hash(src, init), "Topology.add_facility": span_hash(src2, fac)}}
 
@@ -366,6 +379,8 @@ def generate():
     body.append("def ifaceParentPrecheck : Bool := %s\n" % ("true" if idioms["ifaceParentPrecheck"] else "false"))
     body.append("/-- `connect_interface` validates the ServicePort name and the link name before creating the port -/")
     body.append("def connectNamePrecheck : Bool := %s\n" % ("true" if idioms["connectNamePrecheck"] else "false"))
+    body.append("/-- `Topology._disconnect_interfaces` skips an interface that is no longer in the graph -/")
+    body.append("def detachSkipsGone : Bool := %s\n" % ("true" if idioms["detachSkipsGone"] else "false"))
     body.append("/-- `NetworkService.peer` removes the ServicePorts it created when a later step raises -/")
     body.append("def peerRollback : Bool := %s\n" % ("true" if idioms["peerRollback"] else "false"))
     changed = emit("Rules", "\n".join(body))
